@@ -46,6 +46,7 @@ class FrameData(IFLR):
         body = self._frame.obname + write_struct_uvari(self._frame_number)
 
         for s in self._slots:
-            body += s.byteswap().tobytes()
+            # big-endian bytes, whatever byte order the slot is stored in (sub-array slots keep the source's order)
+            body += np.asarray(s, dtype=s.dtype.newbyteorder('>')).tobytes()
 
         return body
